@@ -16,6 +16,11 @@
 //!           | 'r' t '.' u  import {x<u> as r<j>} from "m<t>";         reads r<j>   (link error unless m<t> exports x<u>)
 //!           | 'b' t        import {nope as b<j>} from "m<t>";         always a link error
 //!   ops    := op (',' op)*     op := 'L' k    -> m<k>.load_link_evaluate(ctx); ctx.run_jobs()
+//!                              | 'P' k    -> m<k>.load(ctx); ctx.run_jobs()                 (state: of the load promise)
+//!                              | 'E' k    -> m<k>.link(ctx); m<k>.evaluate(ctx)  WITHOUT draining the job queue
+//!                                            (state: of the evaluation promise right now, usually P)
+//!                              | 'J'      -> ctx.run_jobs()   (state: the states of all promises returned by E ops so far,
+//!                                            in order, joined by '/')
 //!   a target index >= number of modules names a module that is not registered (load error).
 //!
 //! Every module body is
@@ -82,7 +87,15 @@ struct Mod {
     decls: Vec<Decl>,
 }
 
-fn parse_case(s: &str) -> Result<(Vec<Mod>, Vec<usize>), String> {
+#[derive(Clone, Copy, PartialEq)]
+enum OpKind {
+    L,
+    P,
+    E,
+    J,
+}
+
+fn parse_case(s: &str) -> Result<(Vec<Mod>, Vec<(OpKind, usize)>), String> {
     let (m, o) = s.split_once('|').ok_or("missing |")?;
     let mut mods = Vec::new();
     for ms in m.trim().split(';') {
@@ -113,10 +126,18 @@ fn parse_case(s: &str) -> Result<(Vec<Mod>, Vec<usize>), String> {
         if op.is_empty() {
             continue;
         }
-        if !op.starts_with('L') {
-            return Err(format!("bad op {op}"));
+        let kind = match op.chars().next().unwrap() {
+            'L' => OpKind::L,
+            'P' => OpKind::P,
+            'E' => OpKind::E,
+            'J' => OpKind::J,
+            _ => return Err(format!("bad op {op}")),
+        };
+        if kind == OpKind::J {
+            ops.push((kind, 0));
+        } else {
+            ops.push((kind, op[1..].parse::<usize>().map_err(|e| e.to_string())?));
         }
-        ops.push(op[1..].parse::<usize>().map_err(|e| e.to_string())?);
     }
     Ok((mods, ops))
 }
@@ -243,7 +264,81 @@ fn run_case(line: &str) -> String {
         }
     }
     let mut out = Vec::new();
-    for &k in &ops {
+    let mut eval_promises: Vec<boa_engine::object::builtins::JsPromise> = Vec::new();
+    for &(kind, k) in &ops {
+        if kind != OpKind::L {
+            // the split ops: the case is never reused for the next one (pending evaluations stay in the context)
+            clean = false;
+            let name = match kind {
+                OpKind::P => format!("P{k}"),
+                OpKind::E => format!("E{k}"),
+                _ => "J".to_string(),
+            };
+            if kind != OpKind::J && k >= handles.len() {
+                out.push(format!("{name}=bad-op~~"));
+                continue;
+            }
+            let r = bh::guarded(|| -> Result<String, String> {
+                match kind {
+                    OpKind::P => {
+                        let p = handles[k].load(&mut ctx);
+                        let jr = ctx.run_jobs();
+                        let st = match p.state() {
+                            PromiseState::Pending => "P".to_string(),
+                            PromiseState::Fulfilled(_) => "F".to_string(),
+                            PromiseState::Rejected(v) => format!("R:{}", describe_error(&v, &mut ctx)),
+                        };
+                        Ok(if jr.is_err() { format!("{st}!jobs-error") } else { st })
+                    }
+                    OpKind::E => {
+                        if let Err(e) = handles[k].link(&mut ctx) {
+                            let v = e.into_opaque(&mut ctx).map_err(|e| e.to_string())?;
+                            return Ok(format!("R:{}", describe_error(&v, &mut ctx)));
+                        }
+                        match handles[k].evaluate(&mut ctx) {
+                            Ok(p) => {
+                                let st = match p.state() {
+                                    PromiseState::Pending => "P".to_string(),
+                                    PromiseState::Fulfilled(_) => "F".to_string(),
+                                    PromiseState::Rejected(v) => format!("R:{}", describe_error(&v, &mut ctx)),
+                                };
+                                eval_promises.push(p);
+                                Ok(st)
+                            }
+                            Err(e) => Ok(format!("R!evaluate-err:{e}")),
+                        }
+                    }
+                    _ => {
+                        let jr = ctx.run_jobs();
+                        let mut sts = Vec::new();
+                        for p in &eval_promises {
+                            sts.push(match p.state() {
+                                PromiseState::Pending => "P".to_string(),
+                                PromiseState::Fulfilled(_) => "F".to_string(),
+                                PromiseState::Rejected(v) => format!("R:{}", describe_error(&v, &mut ctx)),
+                            });
+                        }
+                        let st = sts.join("/");
+                        Ok(if jr.is_err() { format!("{st}!jobs-error") } else { st })
+                    }
+                }
+            });
+            let trace: Vec<String> = bh::take_trace().into_iter().map(unquote).collect();
+            let loads: Vec<String> = LOADS.with(|l| std::mem::take(&mut *l.borrow_mut()));
+            match r {
+                Ok(Ok(st)) => out.push(format!("{name}={st}~{}~{}", trace.join(","), loads.join(","))),
+                Ok(Err(msg)) => {
+                    out.push(format!("{name}=X:{}~{}~{}", msg.replace(['\n', ';', '~'], " "), trace.join(","), loads.join(",")));
+                    break;
+                }
+                Err(msg) => {
+                    let msg = msg.replace(['\n', ';', '~'], " ");
+                    out.push(format!("{name}=X:{msg}~{}~{}", trace.join(","), loads.join(",")));
+                    break;
+                }
+            }
+            continue;
+        }
         if k >= handles.len() {
             out.push(format!("L{k}=bad-op~~"));
             continue;
